@@ -11,12 +11,19 @@ answers and refusals are compared literally.
 Oracle (harness/stabutil.py, NumPy, independent of the model): the 2^n state
 vector stabilised by the pre-state, the gate as a unitary matrix, and the
 requirement that the post-rows are n commuting independent generators that all
-fix U|psi>; `eq` = same vector up to phase, `contains(P)` = P|psi> = |psi>."""
+fix U|psi>; `eq` = same vector up to phase, `contains(P)` = P|psi> = |psi>.
+
+Sequence stage (harness/stabseq_cases.py): the cases above use a fresh object per
+operation; the sequence stage runs 3..12 operations of every public method on ONE
+long-lived StabilizerState / stabilizerEngine (plus a second long-lived state and
+copies), judging every step against a state vector carried along and against the
+Lean model state threaded through the sequence."""
 import itertools
 
 from .. import core
 from .. import stabutil as su
 from .. import stabapi_cases as sa    # API stage: constructors, strings, standard form, composite gates
+from .. import stabseq_cases as sq    # sequence stage: many operations on ONE long-lived object / engine
 
 LEAN_TARGETS = ["SqVerif.Props.C13", "SqVerif.Props.C13Api"]
 PROPS_FILE = ["SqVerif/Props/C13Gates.lean", "SqVerif/Props/C13Gauss.lean", "SqVerif/Props/C13Api.lean"]
@@ -127,12 +134,15 @@ def run(ctx):
                 "non-trivial = accepted operation on >= 2 qubits" % ctx.scale(8, 10))
     replay = getattr(ctx, "replay", None)
     api_descs = None                  # API stage: None = generate its cases, [] = skip (replay of a case of this module)
+    seq_descs = None                  # sequence stage: likewise
     if replay and isinstance(replay.get("input"), dict) and replay["input"].get("case"):
         descs = [su.desc_from_json(replay["input"]["case"])]
-        if sa.is_api(descs[0]):
-            descs, api_descs = [], descs
+        if sq.is_seq(descs[0]):
+            descs, api_descs, seq_descs = [], [], descs
+        elif sa.is_api(descs[0]):
+            descs, api_descs, seq_descs = [], descs, []
         else:
-            api_descs = []
+            api_descs, seq_descs = [], []
     else:
         descs = build_cases(ctx)
         res.exhaustive = True      # parts (a)-(d) are complete enumerations
@@ -143,6 +153,7 @@ def run(ctx):
         res.notes.append("tie: %d of %d observations equal at row level, %d equal only at group level" % (
             res.dist.get("tie:row_level_equal", 0), res.traces, res.dist.get("tie:row_level_differs_group_equal", 0)))
     sa.stage(ctx, res, api_descs)     # API stage (harness/stabapi_cases.py): oracle + tie against the driver stabapi
+    sq.stage(ctx, res, seq_descs, "C13")    # sequence stage (harness/stabseq_cases.py): long-lived objects, model state threaded
     return res
 
 
